@@ -89,13 +89,25 @@ def build(tier, seed, known):
         src += fn_src(name, "inputs: List[int]", pres, ["return balanced_run(STMTS_%s, inputs)" % name])
         plan.obs.append(Ob(name, fam, "m", name, 120, "confirmed", "program %s: depth tuple (context_values, inputs, stacks, function_stack) and top-level context after every top-level statement" % prog,
                            "%d inputs, each an int in -1..3 (they drive loop counts, which branch runs, which iteration breaks)" % k))
+    # generated programs (the same seeded derivations of the structure grammar as C01, incl. break / continue / recursion forms)
+    try:
+        from props.c01 import prepare
+        gen = prepare(tier, seed)["keep"]
+    except Exception as e:  # noqa
+        gen = []
+    for gi, P in enumerate(gen):
+        name = "g%04d" % gi
+        src += "STMTS_%s = stmts_of(%r)\n" % (name, P)
+        src += fn_src(name, "inputs: List[int]", ["len(inputs) == 3", SMALL], ["return balanced_run(STMTS_%s, inputs)" % name])
+        plan.obs.append(Ob(name, "generated", "m", name, 120, "confirmed", "generated program %s: depth tuple and top-level context after every top-level statement" % P, "3 inputs in -1..3"))
     src += fn_src("twin_for_break", "inputs: List[int]", ["len(inputs) == 3", SMALL], ["return balanced_run(STMTS_for_break_in_if, inputs) and inputs[0] < 2"])
     plan.obs.append(Ob("twin_for_break", "prog", "m", "twin_for_break", 120, "refuted", "reachability twin"))
     plan.modules["m"] = src
     plan.require_ok_marker = True
     plan.functions_encoded = ["vyxal/transpile.py: every structure template incl. BreakStatement / RecurseStatement lowering (text exec'ed symbolically)", "vyxal/helpers.py: pop get_input iterable wrapify safe_apply deep_copy",
                               "vyxal/LazyList.py: output", "vyxal/elements.py: vy_print function_call vy_map vy_filter modifiers' templates"]
-    plan.rule = "skeleton = program with break/continue/recurse at a legal position or a lazy-list print; the solver quantifies over the inputs that decide loop counts, branches and which iteration exits early"
+    plan.inconclusive_ceiling = 0.5
+    plan.rule = "skeleton = hand-written program with break/continue/recurse at a legal position or a lazy-list print, plus the seeded generated programs of C01 (%d); the solver quantifies" % len(gen) + " over the inputs that decide loop counts, branches and which iteration exits early"
     plan.assumptions = ["secrets.token_hex names are irrelevant (transpile runs once, concretely)", "print() is captured by a recorder", "a program that raises is outside the property ('finishes normally')"]
     plan.outside = ["programs not in the list", "inputs outside -1..3", "x (continue) directly in a while loop body: see DESIGN"]
     return plan
